@@ -21,7 +21,7 @@ Proof.
   - rewrite IH. split; [intros [->|H]; lia|intros H]. destruct (N.eq_dec s x); [now left|right; lia].
 Qed.
 Lemma nthN_nth {A} (l : list A) (i : N) (d : A) : i < N.of_nat (length l) -> nthN l i = Some (nth (N.to_nat i) l d).
-Proof. intros H. unfold nthN. apply nth_error_nth'. lia. Qed.
+Proof. intros H. unfold nthN. destruct (N.ltb_spec i (N.of_nat (length l))); [|lia]. apply nth_error_nth'. lia. Qed.
 Lemma map_nth_seqN {A} (l : list A) (d : A) : map (fun i => nth (N.to_nat i) l d) (seqN 0 (length l)) = l.
 Proof.
   assert (G : forall (l : list A) s, map (fun i => nth (N.to_nat (i - s)) l d) (seqN s (length l)) = l).
